@@ -5,6 +5,7 @@ import SkimModel.Model.Editor
 import SkimModel.Model.SelCursor
 import SkimModel.Model.Accept
 import SkimModel.Model.Inject
+import SkimModel.Model.Field
 /-
 End-to-end stream for C05 (and the expect, bind and conditional parts of C19): the REAL `sk` binary is
 driven under a pty (items on stdin, keystrokes on the terminal); its stdout and exit code are judged against
@@ -35,6 +36,7 @@ structure S where
   selected : List Nat := []          -- item indices, kept ascending (= (run, index) order within one run)
   multi    : Bool := false
   execs    : List String := []       -- commands handed to the shell so far (hex), oldest first
+  comma    : Bool := false           -- `-d ,`: fields are split at commas (the only non-default delimiter this stream generates)
   done     : Option (Accept.FinalEv × Keymap.Key) := none
   unsupported : Option String := none
 
@@ -60,14 +62,22 @@ def hexOf (s : String) : String :=
   let hexd (n : Nat) : Char := if n < 10 then Char.ofNat (48 + n) else Char.ofNat (87 + n)
   String.ofList (s.toUTF8.toList.flatMap (fun b => [hexd (b.toNat / 16), hexd (b.toNat % 16)]))
 
-/-- does the template refer to items (`depends_on_items`, RE_ITEMS) — for the templates this stream generates: `{}`, `{+}` -/
+/-- does the template refer to items (`depends_on_items`, RE_ITEMS `\{ *-?[0-9.+]*? *}`) -/
 def refersToItems (t : List Char) : Bool :=
+  let inner (c : Char) : Bool := c == ' ' || c == '-' || c == '.' || c == '+' || c.isDigit
   let rec go : List Char → Bool
-    | '{' :: '}' :: _ => true
-    | '{' :: '+' :: '}' :: _ => true
+    | '{' :: r => (match r.dropWhile inner with | '}' :: _ => true | _ => go r)
     | _ :: r => go r
     | [] => false
   go t
+
+/-- `get_string_by_range(",", item, range)` for ASCII items: the C12 field model on the bytes of the item, delimiter matches = the commas -/
+def commaField (item range : List Char) : Option (List Char) :=
+  let bytes : List UInt8 := item.map (fun c => UInt8.ofNat c.toNat)
+  let ms := (bytes.zipIdx.filter (fun p => p.1 == 0x2c)).map (fun p => (p.2, p.2 + 1))
+  match Field.getStringByRange Field.isAsciiDigit bytes ms range with
+  | some (some b) => some (b.map (fun x => Char.ofNat x.toNat))
+  | _ => none
 
 /-- `Model::act_execute_silent`: the context is built from the live list, selection and query (C07: `{}` the current item,
     `{n}` its index = the ordinal index of the line in the input, `{+…}` the same for every selected item, or for the current item
@@ -82,7 +92,8 @@ def execSilent (s : S) (tmpl : List Char) : S :=
   let ctx : Inject.Ctx :=
     { cur := (curItem.map text).getD [], curIdx := curItem.getD 0,
       sels := selIdx.map text, idxs := selIdx,
-      query := s.ed.fz.line, cmdQuery := s.ed.cmd.line }
+      query := s.ed.fz.line, cmdQuery := s.ed.cmd.line,
+      fld := if s.comma then commaField else (fun _ _ => none) }
   let cmd := Inject.inject ctx tmpl
   { s with execs := s.execs ++ [if cmd.isEmpty then "-" else hexOf (String.ofList cmd)] }
 
@@ -103,6 +114,8 @@ partial def handle (key : Keymap.Key) (s : S) (ev : Keymap.Event) : S :=
     else if ctorIs c "EvActBeginningOfLine" then edit .beginningOfLine
     else if ctorIs c "EvActEndOfLine" then edit .endOfLine
     else if ctorIs c "EvActYank" then edit .yank
+    else if ctorIs c "EvActPreviousHistory" then edit .previousHistory
+    else if ctorIs c "EvActNextHistory" then edit .nextHistory
     else if ctorIs c "EvActAbort" then { s with done := some (.abort, key) }
     else if ctorIs c "EvActToggle" then
       if s.multi then
@@ -163,14 +176,20 @@ def answerWith (execOnly : Bool) (case impl : String) : String :=
     let has (k : String) := os.contains k
     let val (k : String) : Option String := (os.find? (fun o => o.startsWith (k ++ "="))).map (fun o => (o.drop (k.length + 1)).toString)
     let expect := (val "expect").map decStr
-    let binds := (os.filter (fun o => o.startsWith "bind=")).map (fun o => decStr (o.drop 5).toString)
+    -- `--history` / `--cmd-history`: src/bin/main.rs puts `ctrl-p:previous-history,ctrl-n:next-history` IN FRONT of the user's bindings
+    let hist : List (List Char) := match val "hist" with
+      | some h => ((h.splitOn "+").filter (· ≠ "")).map decStr
+      | none => []
+    let binds0 := (os.filter (fun o => o.startsWith "bind=")).map (fun o => decStr (o.drop 5).toString)
+    let binds := if (val "hist").isSome then "ctrl-p:previous-history,ctrl-n:next-history".toList :: binds0 else binds0
     match Keymap.buildInput binds expect with
     | .error m => "error:keymap:" ++ String.ofList m ++ "\terror"
     | .ok km =>
       let its := ((items.splitOn ",").filter (· ≠ "")).map decStr
       let q0 := ((val "q").map decStr).getD []
-      let s0 : S := refilter { items := its, multi := has "multi", ed := { fz := { before := q0.reverse } },
-                               cur := SelCursor.Cur.init false }
+      let s0 : S := refilter { items := its, multi := has "multi", ed := { fz := { before := q0.reverse }, fzH := { before := hist.reverse } },
+                               cur := SelCursor.Cur.init false, comma := (val "d") == some "44" }
+      let pvTmpl := (val "pv").map decStr
       let ks := ((keys.splitOn " ").filter (· ≠ "")).map decStr
       let s := ks.foldl (fun s name =>
         if s.done.isSome then s else
@@ -192,7 +211,20 @@ def answerWith (execOnly : Bool) (case impl : String) : String :=
           let b : Accept.BinOpts := { printQuery := has "pq", printCmd := has "pc", expect := expect.isSome }
           let r := Accept.binOutput o b (fun i => String.ofList (s.items.getD i []))
           let out := String.join (r.1.map (· ++ "\n"))
-          let model := s!"rc={r.2} out={hexOf out} exec={if s.execs.isEmpty then "_" else ",".intercalate s.execs}"
+          -- the preview pane: the last command handed to the shell is the expansion of the preview template in the final state
+          -- (current item = the ORIGINAL line, its index, the query; the same field lookup as the execute actions)
+          let pvWant : String := match pvTmpl with
+            | none => "_"
+            | some t =>
+              match s.listed[s.cur.cursor]? with
+              | none => "_"
+              | some i =>
+                let ctx : Inject.Ctx :=
+                  { cur := s.items.getD i [], curIdx := i, sels := [s.items.getD i []], idxs := [i],
+                    query := s.ed.fz.line, cmdQuery := s.ed.cmd.line,
+                    fld := if s.comma then commaField else (fun _ _ => none) }
+                hexOf (String.ofList (Inject.inject ctx t))
+          let model := s!"rc={r.2} out={hexOf out} exec={if s.execs.isEmpty then "_" else ",".intercalate s.execs} pv={pvWant}"
           if execOnly then
             s!"exec={execPart model}" ++ "\t" ++
               (if execPart impl == execPart model then "ok" else "bad:command-handed-to-the-shell-differs-from-the-expansion-of-the-template")
